@@ -401,7 +401,11 @@ def decode : RTok → Res Tok
   | .number t => (newNumber t).bind (fun n => .ok (.lit (.num n)))
   | .duration t => (newDur t).bind (fun d => .ok (.lit (.dur d t)))
   | .string t => let (l, tr) := newString t.toList; .ok (.lit (.str (String.ofList l) tr))
-  | .regex t => let (re, l) := newRegex t.toList; .ok (.lit (.rx (String.ofList re) (String.ofList l)))
+  | .regex t =>
+    let (re, l) := newRegex t.toList
+    -- regexp.Compile is not modelled: texts whose brackets do not pair up are left to the spec oracle
+    if re.count '[' != re.count ']' || re.count '(' != re.count ')' || re.isEmpty then .na "regex-validity"
+    else .ok (.lit (.rx (String.ofList re) (String.ofList l)))
   | .reference t => .ok (.lit (.ref (String.ofList (newReference t.toList))))
   | .ident t => .ok (.id t)
   | .tTrue => .ok (.lit (.bool true))
